@@ -206,4 +206,82 @@ C15_Violations(r) ==
     ELSE LET hit == {i \in 1..Len(r.btab) : old > r.btab[i][1] /\ old <= r.btab[i][1] + r.btab[i][2]} IN
          IF \E i \in hit : r.ftab[i][9] /\ new # r.btab[i][3] + (old - r.btab[i][1]) THEN {"same_offset_in_token"} ELSE {}
     : k \in 1..Len(r.cur)}
+---------------------------------------------------------------------------
+(* C02: the output re-scans to the same tokens, up to the documented normalisations *)
+
+TokTexts(s, t) == LET st == TokStarts(t) IN [i \in 1..Len(t) |-> SubSeq(s, st[i], st[i] + t[i][2] - 1)]
+
+RECURSIVE TrimAsciiWsEnd(_)
+TrimAsciiWsEnd(t) == IF Len(t) >= 1 /\ IsAsciiWs(t[Len(t)]) THEN TrimAsciiWsEnd(SubSeq(t, 1, Len(t) - 1)) ELSE t
+
+\* the forms a line comment may take after formatting: trailing blanks trimmed; one space after `//` or `///`
+LineCommentForms(t) ==
+  LET tr == TrimAsciiWsEnd(t)
+      p == IF Len(tr) >= 3 /\ tr[3] = 47 THEN 3 ELSE 2            \* length of the `//` or `///` opener
+  IN {tr} \cup (IF Len(tr) > p /\ ~IsAsciiWs(tr[p + 1]) THEN {SubSeq(tr, 1, p) \o <<SPACE>> \o SubSeq(tr, p + 1, Len(tr))} ELSE {})
+
+\* MLValueEq is supplied by the module that knows MLString (Session); here only the hook
+TokenEqualModuloNorm(kind, a, b, fms, MLEq(_, _)) ==
+  \/ a = b
+  \/ kind \in WordKinds /\ FoldSeq(a) \in KeywordWords /\ FoldSeq(a) = b
+  \/ kind \in DirectiveKinds /\ Len(a) = Len(b) /\
+        LET rng == DirNameRange(a) IN
+        \A k \in 1..Len(a) : IF k >= rng[1] /\ k <= rng[2] THEN Up(a[k]) = b[k] ELSE a[k] = b[k]
+  \/ kind \in {"Comment(InlineLine)", "Comment(IndividualLine)"} /\ b \in LineCommentForms(a)
+  \/ kind = "TextLiteral(MultiLine)" /\ fms /\ MLEq(a, b)
+
+C02_Violations(r, MLEq(_, _)) ==
+  IF Len(r.tin) # Len(r.tout) THEN {"token_count"}
+  ELSE LET ta == TokTexts(r.in, r.tin)  tb == TokTexts(r.out, r.tout) IN
+       (IF \E i \in 1..Len(r.tin) : r.tin[i][3] # r.tout[i][3] THEN {"kind"} ELSE {})
+       \cup (IF \E i \in 1..Len(r.tin) : r.tin[i][3] = r.tout[i][3] /\ r.tin[i][3] # "Eof"
+                    /\ ~TokenEqualModuloNorm(r.tin[i][3], ta[i], tb[i], r.cfg.fms, MLEq) THEN {"text"} ELSE {})
+
+---------------------------------------------------------------------------
+(* C05: structure marks <<kind, key, ref, delta, ordinal>> (ordinal 0-based among the plain tokens) on the output *)
+
+PlainIdx(t) == SelectSeq([i \in 1..Len(t) |-> i], LAMBDA i : t[i][3] \notin CommentKinds /\ t[i][3] \notin DirectiveKinds /\ t[i][3] # "Eof")
+
+LineStartOf(s, pos) == LET lf == {k \in 1..(pos - 1) : s[k] = LF} IN IF lf = {} THEN 1 ELSE (CHOOSE m \in lf : \A x \in lf : x <= m) + 1
+IndentLen(s, ls) == (CHOOSE e \in ls..(Len(s) + 1) : (\A k \in ls..(e - 1) : s[k] \in {SPACE, TAB}) /\ (e = Len(s) + 1 \/ s[e] \notin {SPACE, TAB})) - ls
+
+C05_Violations(r) ==
+  LET pi == PlainIdx(r.tout)
+      st == TokStarts(r.tout)
+      np == Len(pi)
+      startOf(o) == st[pi[o + 1]]                              \* o is 0-based
+      endOf(o) == st[pi[o + 1]] + r.tout[pi[o + 1]][2] - 1
+      first(o) == o = 0 \/ \E k \in (endOf(o - 1) + 1)..(startOf(o) - 1) : r.out[k] = LF
+      indentOf(o) == IndentLen(r.out, LineStartOf(r.out, startOf(o)))
+      pure(o) == LET ls == LineStartOf(r.out, startOf(o)) IN
+                 \A k \in ls..(ls + indentOf(o) - 1) : r.out[k] = (IF r.cfg.tabs THEN TAB ELSE SPACE)
+      unit == IF r.cfg.tabs THEN 1 ELSE r.cfg.tw
+      M == r.marks
+      ordOfKey(k) == (CHOOSE j \in 1..Len(M) : M[j][2] = k)
+      applies(m) == m[1] \in {"S", "D", "C"} \/ (m[1] = "B" /\ r.cfg.always_wrap)
+      \* an enclosing anonymous routine that stayed on its parent's line (deliberate style): walk up the refs
+      inlineAnon[key \in 0..Len(M) + 1] ==
+         IF key = 0 \/ ~(\E j \in 1..Len(M) : M[j][2] = key) THEN FALSE
+         ELSE LET m == M[ordOfKey(key)] IN
+              IF m[1] = "A" /\ m[5] < np /\ ~first(m[5]) THEN TRUE
+              ELSE IF m[3] < key THEN inlineAnon[m[3]] ELSE FALSE
+  IN IF np # r.nplain THEN {}
+     ELSE UNION {
+       LET m == M[j] IN
+       IF ~applies(m) \/ m[5] >= np THEN {}
+       ELSE IF ~first(m[5]) THEN (IF inlineAnon[m[3]] THEN {"own_line_inline_anon"} ELSE {"own_line"})
+       ELSE IF ~pure(m[5]) \/ unit = 0 THEN {}
+       ELSE IF m[3] = 0 THEN (IF indentOf(m[5]) # 0 THEN {"depth"} ELSE {})
+       ELSE IF ~(\E q \in 1..Len(M) : M[q][2] = m[3]) THEN {}
+       ELSE LET ro == M[ordOfKey(m[3])][5] IN
+            IF ro >= np \/ ~first(ro) THEN {}
+            ELSE IF indentOf(m[5]) # indentOf(ro) + m[4] * unit THEN {"depth"} ELSE {}
+       : j \in 1..Len(M)}
+
+---------------------------------------------------------------------------
+(* C07: verbatim regions (code point ranges <<from, to>> of the input, 0-based half-open) occur in the output *)
+
+Occurs(x, s) == \E p \in 1..(Len(s) - Len(x) + 1) : \A k \in 1..Len(x) : s[p + k - 1] = x[k]
+
+C07_RegionsKept(r) == \A i \in 1..Len(r.regions) : Occurs(SubSeq(r.in, r.regions[i][1] + 1, r.regions[i][2]), r.out)
 =============================================================================
